@@ -229,6 +229,25 @@ func (ImplCodec) Exec(line string) (obs string) {
 				}
 			}
 		}
+		// a list taken whole out of a longer, already laid-out one (the archives of a file with one
+		// more, coarser archive): every element carries an offset, none of them right for this list
+		if k := len(lay); k >= 1 && strings.HasPrefix(fresh, "ok") {
+			last := lay[k-1]
+			st, n := int64(last.SecondsPerPoint()), int64(last.NumberOfPoints())
+			if n >= 2 && st*n*4 < 1<<31 {
+				var parts []string
+				for _, a := range lay {
+					parts = append(parts, fmt.Sprintf("%ds:%ds", int64(a.SecondsPerPoint()), int64(a.SecondsPerPoint())*int64(a.NumberOfPoints())))
+				}
+				parts = append(parts, fmt.Sprintf("%ds:%ds", st*2, st*n*4))
+				if donor, err := wt.ParseArchiveInfoList(strings.Join(parts, ",")); err == nil && len(donor) == k+1 {
+					taken := append([]wt.ArchiveInfo(nil), donor[:k]...)
+					if m := mk(taken); m != fresh {
+						return "fresh/taken-from-longer differ: " + fresh + " | " + m
+					}
+				}
+			}
+		}
 		return fresh
 	}
 	return textExec(tk)
